@@ -21,7 +21,9 @@ def sh(cmd, cwd=None, env=None, timeout=3600):
 def main():
     args = sys.argv[1:]
     use_repo = '--repo' in args
-    args = [a for a in args if a != '--repo']
+    # ID-k=C09,C02 re-runs only those checks for that change; earlier outcomes of its other listed checks are kept
+    only = {a.split('=')[0]: a.split('=')[1].split(',') for a in args if '=' in a}
+    args = [a.split('=')[0] for a in args if a != '--repo']
     ids = args or sorted(os.listdir(os.path.join(ROOT, 'seeded')))
     for sid in ids:
         d = os.path.join(ROOT, 'seeded', sid)
@@ -53,10 +55,12 @@ def main():
             suite = out.strip().splitlines()[-1] if out.strip() else ''
             d1, dout = sh('/venv/bin/python %s/demo.py' % d, cwd=tree, env=env)
             res = {}
+            if sid in only and isinstance(meta.get('result'), dict):
+                res = {c: r for c, r in (meta['result'].get('checks') or {}).items() if c not in only[sid]}
             cenv = dict(os.environ)
             if not use_repo:
                 cenv['VP_REPO'] = tree
-            for c in meta.get('checks') or [meta['property']]:
+            for c in only.get(sid) or meta.get('checks') or [meta['property']]:
                 t = time.time()
                 rc, out = sh('./check %s --no-evidence' % c, cwd=ROOT, env=cenv)
                 viol = [l for l in out.splitlines() if l.startswith('VIOLATION')]
